@@ -1526,6 +1526,34 @@ func ruleBodiesClosed(c *chk.Ctx) {
 				return false
 			}}
 			okAll, _ = q.MustReach(do)
+			// and only the empty acknowledgement (204) is kept from the receiver: a response the
+			// sender disposes of itself is one whose status equals that constant — any other
+			// status is how a failed exchange reaches the client through Recv
+			onlyAck := true
+			where := ""
+			ir.Calls(g, func(ci ssa.CallInstruction) {
+				cc := ci.Common()
+				if !cc.IsInvoke() || cc.Method.Name() != "Close" || !strings.HasSuffix(cc.Value.Type().String(), "io.ReadCloser") {
+					return
+				}
+				is204 := false
+				for _, cd := range ir.NormConds(ir.CondsAt(ci.Block())) {
+					if x, y, op, isRel := ir.Rel(cd); isRel && op == token.EQL {
+						for _, pr := range [][2]ssa.Value{{x, y}, {y, x}} {
+							if k, isK := ir.ConstInt(pr[1]); isK && k == 204 {
+								if _, fv, isF := ir.FieldRead(pr[0]); isF && fv != nil && fv.Name() == "StatusCode" {
+									is204 = true
+								}
+							}
+						}
+					}
+				}
+				if !is204 {
+					onlyAck = false
+					where = c.P.Pos(ci.Pos())
+				}
+			})
+			c.Check(onlyAck, "PAIR.body", g, "only the empty acknowledgement is kept from the receiver", do.Pos(), "the sender closes a response itself only on the StatusCode == 204 edge", "the sender disposes of a response itself (at "+where+") on an edge other than StatusCode == 204: a reply that reports a failed exchange (500, 503, …) would never reach Recv, and the call it answers would hang until its context ends")
 			c.Check(okAll, "PAIR.body", g, "every obtained response is closed or handed on", do.Pos(), "from the Do call every path closes the body or sends the response to the receiver", "a path from Do drops the response without closing its body")
 		}
 	}
